@@ -66,7 +66,7 @@ def weave : List Q → List String → List String
 
 def errName : Err → String
   -- errors that come out of debug/elf, debug/gosym or os carry library texts: one observation class for both
-  | .elf => "read" | .pclnData => "read" | .noText => "no-text" | .noPcln => "no-pclntab"
+  | .open => "read" | .elf => "read" | .pclnData => "read" | .noText => "no-text" | .noPcln => "no-pclntab"
   | .noFunc => "nofunc" | .noVar => "novar"
 
 def showRes : Res → String
@@ -80,7 +80,8 @@ def parseHist (toks : List String) : Option (Env String × List Q) := do
     let mv ← (stripPrefix? "mv=" mv).bind parseNat
     let af ← stripPrefix? "af=" af
     let av ← stripPrefix? "av=" av
-    let elfOk ← match elf with | "elf=ok" => some true | "elf=bad" => some false | _ => none
+    let (openOk, elfOk) ← match elf with
+      | "elf=ok" => some (true, true) | "elf=bad" => some (true, false) | "elf=noopen" => some (false, false) | _ => none
     let text ← match text with
       | "text=-" => some none
       | t => ((stripPrefix? "text=" t).bind parseNat).map (fun x => some (BitVec.ofNat 64 x))
@@ -104,20 +105,29 @@ def parseHist (toks : List String) : Option (Env String × List Q) := do
         let k ← (stripPrefix? "q=" q).bind String.toNat?
         if k ≠ qs.length then none else
         let ops ← qs.mapM parseOp
-        let file : File String := { elfOk := elfOk, text := text, pcln := pc, symtab := sy }
+        let file : File String := { openOk := openOk, elfOk := elfOk, text := text, pcln := pc, symtab := sy }
         pure ({ file := file, anchorF := af, anchorV := av, memF := BitVec.ofNat 64 mf, memV := BitVec.ofNat 64 mv }, ops)
       | [] => none
     | [] => none
   | _ => none
 
+def handleHist (rest : List String) : Option String :=
+  match parseHist rest with
+  | some (env, qs) =>
+    let rs := weave qs ((run env {} (opsOf qs)).2.map showRes)
+    some (if rs.isEmpty then "-" else String.intercalate " " rs)
+  | none => some "bad-op"
+
+/-- `c10.conc <cfg> g=<N> …`: the same calls issued by N goroutines released together.  By `C10.conc_any_schedule`
+    the answer to each call is the same under every schedule, so it is computed with the sequential one. -/
+def dropG : List String → List String
+  | cfg :: g :: rest => if g.startsWith "g=" then cfg :: rest else cfg :: g :: rest
+  | l => l
+
 def handle (toks : List String) : Option String :=
   match toks with
-  | "c10.hist" :: rest =>
-    match parseHist rest with
-    | some (env, qs) =>
-      let rs := weave qs ((run env {} (opsOf qs)).2.map showRes)
-      some (if rs.isEmpty then "-" else String.intercalate " " rs)
-    | none => some "bad-op"
+  | "c10.conc" :: rest => handleHist (dropG rest)
+  | "c10.hist" :: rest => handleHist rest
   | _ => none
 
 end Drv.C10
